@@ -63,6 +63,9 @@ type Script struct {
 	// environment has GODEBUG=asynctimerchan=1 (the timer-channel semantics of the repository's go directive).
 	Real bool `json:"real,omitempty"`
 	Unit int  `json:"unit,omitempty"`
+	// RtErr: when the instances are used up runtimeFunc returns an error of its own instead of
+	// scheduler.ErrNoMoreInstances (the goroutine's other way out of its loop; same tidy-up, same model script).
+	RtErr bool `json:"rterr,omitempty"`
 }
 
 type TOp struct {
@@ -247,6 +250,9 @@ func body(sc Script, st *shared) {
 		runtimeFunc := func(context.Context) (time.Time, error) {
 			st.tick()
 			if left <= 0 {
+				if sc.RtErr {
+					return time.Time{}, errors.New("runtime function failed")
+				}
 				return time.Time{}, scheduler.ErrNoMoreInstances
 			}
 			left--
@@ -671,6 +677,7 @@ func normalise(sc Script) Script {
 	}
 	if sc.Kind != "periodic" {
 		sc.Ticks = 0
+		sc.RtErr = false
 	}
 	if sc.Real {
 		// one unit = 10..100 ms of real time; no concurrent cancellation of a caller's context (nothing to
@@ -1568,6 +1575,16 @@ func TestC02(t *testing.T) {
 		sc, tags := genReal(rrng.Fork(), i)
 		ins = append(ins, Input{Script: &sc, Tags: tags})
 	}
+	// the job table after the job's goroutine has ended, by every way out: on top again, from its own stream
+	erng := rng.Fork()
+	ne := n / 6
+	if n > 0 && ne < 16 {
+		ne = 16
+	}
+	for i := 0; i < ne; i++ {
+		sc, tags := genExit(erng.Fork(), i)
+		ins = append(ins, Input{Script: &sc, Tags: tags})
+	}
 	// decide repetitions and tags
 	work := make([]Work, 0, len(ins))
 	for _, in := range ins {
@@ -1781,6 +1798,10 @@ func TestC02(t *testing.T) {
 			ctor, key = "Real", fmt.Sprintf("real/%d:%s", sc.Unit, key)
 			col.Count("real-time-script:" + sc.Kind)
 			col.Count(fmt.Sprintf("real-time-distinct-outcomes:%d", len(observed)))
+		}
+		if sc.RtErr {
+			col.Count("periodic:runtimeFunc-error-exit")
+			key += " rterr" // how runtimeFunc ends the job is not part of the Coq term (same exit in the model)
 		}
 		for _, c := range sc.Calls {
 			if c.Cctx != "" {
